@@ -1,4 +1,5 @@
 import Frp.Model.Wire
+import Frp.Model.WireReload
 import Frp.Gen.AuthFacts
 /-
   C05 — Configured encryption really protects the wire; TLS identity rules are enforced.   (PARTIAL)
@@ -294,7 +295,7 @@ theorem client_first_byte_class (c : ClientCfg) (f : Bool) (b : Nat) (hp : c.pro
 theorem client_refuses_other_identity (s : ServerCfg) (c : ClientCfg) (p : Pki)
     (hp : c.protocol = .tcp) (ht : c.tlsEnable = true) (hca : c.trustedCA = true)
     (hbad : s.certGiven = false ∨ p.srvCertIssuer ≠ some p.cliRootCA ∨
-            effServerName c ∉ p.srvCertNames) :
+            certMatchesName p (effServerName c) = false) :
     sessionUp s c p = false := by
   have hacc : serverCertAccepted s (clientTlsOf c.certGiven true (effServerName c)) p = false := by
     unfold serverCertAccepted
@@ -373,7 +374,7 @@ theorem ca_session_requires_cert_every_protocol (s : ServerCfg) (c : ClientCfg) 
 theorem client_refuses_other_identity_every_protocol (s : ServerCfg) (c : ClientCfg) (p : Pki)
     (ht : c.tlsEnable = true) (hca : c.trustedCA = true)
     (hbad : s.certGiven = false ∨ p.srvCertIssuer ≠ some p.cliRootCA ∨
-            effServerName c ∉ p.srvCertNames) :
+            certMatchesName p (effServerName c) = false) :
     sessionUpOn s c p = false := by
   have hacc : serverCertAccepted s (clientTlsOf c.certGiven true (effServerName c)) p = false := by
     unfold serverCertAccepted
@@ -415,6 +416,119 @@ theorem interpretedOk_sound (s : ServerCfg) (c : ClientCfg) (p : Pki)
   have hs : sessionUpOn s c p = true := by simpa [interpretedOk] using h
   exact ⟨fun hca => ca_session_requires_cert_every_protocol s c p hca hs,
          fun hf => force_session_requires_tls_every_protocol s c p hf hs⟩
+
+/-! ## C3. WHICH identity a verifying client insists on: DNS names, IP literals, the defaulted name -/
+
+/-- `sn := cfg.Transport.TLS.ServerName; if sn == "" { sn = cfg.ServerAddr }` -/
+theorem effServerName_default (c : ClientCfg) (h : c.serverName = []) : effServerName c = c.serverAddr := by
+  simp [effServerName, h]
+
+/-- whatever the control transport, the name in the client's tls.Config is the configured name, or
+    `serverAddr` when none is configured -/
+theorem client_verified_name (c : ClientCfg) (ct : ClientTls) (h : clientTls c = some ct) :
+    ct.serverName = effServerName c := by
+  cases hp : c.protocol <;> cases ht : c.tlsEnable <;>
+    simp [clientTls, hp, ht, clientTlsOf] at h <;> (subst h; rfl)
+
+/-- Go's x509 rule (`VerifyHostname`): a name that parses as an IP address is matched against the
+    IP SANs ONLY … -/
+theorem certMatchesName_ip (p : Pki) (n : Str) (h : isIPv4 n = true) :
+    certMatchesName p n = p.srvCertIPs.contains n := by
+  simp [certMatchesName, h]
+
+/-- … and any other name against the DNS SANs only -/
+theorem certMatchesName_dns (p : Pki) (n : Str) (h : isIPv4 n = false) :
+    certMatchesName p n = p.srvCertDNS.contains n := by
+  simp [certMatchesName, h]
+
+/-- a certificate without IP SANs is valid for NO IP-literal name, whatever DNS names it lists
+    (a certificate "of somebody else" issued by the same CA included) -/
+theorem ip_name_needs_ip_san (p : Pki) (n : Str) (h : isIPv4 n = true) (hno : p.srvCertIPs = []) :
+    certMatchesName p n = false := by
+  simp [certMatchesName, h, hno]
+
+/-- a certificate without DNS SANs is valid for no host name -/
+theorem dns_name_needs_dns_san (p : Pki) (n : Str) (h : isIPv4 n = false) (hno : p.srvCertDNS = []) :
+    certMatchesName p n = false := by
+  simp [certMatchesName, h, hno]
+
+/-- **a session comes up only if the presented identity matches**: a client with TLS on and a
+    trusted CA that gets a session — over any control transport, with the server name given or
+    defaulted from serverAddr, DNS name or IP literal — was shown a configured certificate, issued
+    by that CA, whose SANs of the name's own kind contain the name. -/
+theorem session_requires_matching_identity (s : ServerCfg) (c : ClientCfg) (p : Pki)
+    (ht : c.tlsEnable = true) (hca : c.trustedCA = true) (h : sessionUpOn s c p = true) :
+    s.certGiven = true ∧ p.srvCertIssuer = some p.cliRootCA ∧
+      certMatchesName p (effServerName c) = true := by
+  refine ⟨?_, ?_, ?_⟩
+  · cases hc : s.certGiven
+    · rw [client_refuses_other_identity_every_protocol s c p ht hca (Or.inl hc)] at h
+      exact absurd h (by decide)
+    · rfl
+  · cases hi : decide (p.srvCertIssuer = some p.cliRootCA)
+    · have hne : p.srvCertIssuer ≠ some p.cliRootCA := by simpa using hi
+      rw [client_refuses_other_identity_every_protocol s c p ht hca (Or.inr (Or.inl hne))] at h
+      exact absurd h (by decide)
+    · simpa using hi
+  · cases hm : certMatchesName p (effServerName c)
+    · rw [client_refuses_other_identity_every_protocol s c p ht hca (Or.inr (Or.inr hm))] at h
+      exact absurd h (by decide)
+    · rfl
+
+/-- the IP-literal case spelled out: the name (given, or `serverAddr`) must be among the IP SANs -/
+theorem session_ip_name_requires_ip_san (s : ServerCfg) (c : ClientCfg) (p : Pki)
+    (ht : c.tlsEnable = true) (hca : c.trustedCA = true) (hip : isIPv4 (effServerName c) = true)
+    (h : sessionUpOn s c p = true) : effServerName c ∈ p.srvCertIPs := by
+  have hm := (session_requires_matching_identity s c p ht hca h).2.2
+  rw [certMatchesName_ip p _ hip] at hm
+  simpa using hm
+
+/-- the DNS case: the name must be among the DNS SANs -/
+theorem session_dns_name_requires_dns_san (s : ServerCfg) (c : ClientCfg) (p : Pki)
+    (ht : c.tlsEnable = true) (hca : c.trustedCA = true) (hip : isIPv4 (effServerName c) = false)
+    (h : sessionUpOn s c p = true) : effServerName c ∈ p.srvCertDNS := by
+  have hm := (session_requires_matching_identity s c p ht hca h).2.2
+  rw [certMatchesName_dns p _ hip] at hm
+  simpa using hm
+
+/-- the common deployment: no `tls.serverName`, `serverAddr` an IP address.  A certificate that
+    carries DNS names only — whoever it was issued to — gives no session. -/
+theorem defaulted_ip_name_refuses_dns_only_cert (s : ServerCfg) (c : ClientCfg) (p : Pki)
+    (ht : c.tlsEnable = true) (hca : c.trustedCA = true) (hsn : c.serverName = [])
+    (hip : isIPv4 c.serverAddr = true) (hno : p.srvCertIPs = []) : sessionUpOn s c p = false := by
+  apply client_refuses_other_identity_every_protocol s c p ht hca
+  refine Or.inr (Or.inr ?_)
+  rw [effServerName_default c hsn]
+  exact ip_name_needs_ip_san p _ hip hno
+
+/-- an accepted observation of the certificate lattice (`interpretedOk`) of a verifying client
+    means the identity matched -/
+theorem interpretedOk_identity (s : ServerCfg) (c : ClientCfg) (p : Pki)
+    (ht : c.tlsEnable = true) (hca : c.trustedCA = true) (h : interpretedOk s c p true = true) :
+    s.certGiven = true ∧ p.srvCertIssuer = some p.cliRootCA ∧
+      certMatchesName p (effServerName c) = true :=
+  session_requires_matching_identity s c p ht hca (by simpa [interpretedOk] using h)
+
+/-- executable predicate for one handshake of a tls.Config built by the real `NewClientTLSConfig(cert,
+    key, ca, sn)` against a server presenting the certificate described by `p` (op `ident`):
+    with a CA, acceptance implies chain and identity -/
+def identOk (ca : Bool) (sn : Str) (p : Pki) (accepted : Bool) : Bool :=
+  !(accepted && ca) || (p.srvCertIssuer == some p.cliRootCA && certMatchesName p sn)
+
+/-- the model's own answer (`serverCertAccepted` on `clientTlsOf`) satisfies the predicate, and an
+    accepted observation means what the property says -/
+theorem identOk_sound (cert ca : Bool) (sn : Str) (p : Pki) :
+    identOk ca sn p
+      (serverCertAccepted { force := false, trustedCA := false, certGiven := true } (clientTlsOf cert ca sn) p) = true ∧
+    (identOk ca sn p true = true → ca = true →
+      p.srvCertIssuer = some p.cliRootCA ∧ certMatchesName p sn = true) := by
+  constructor
+  · cases ca
+    · simp [identOk, serverCertAccepted, clientTlsOf]
+    · cases hi : (p.srvCertIssuer == some p.cliRootCA) <;> cases hm : certMatchesName p sn <;>
+        simp [identOk, serverCertAccepted, clientTlsOf, hi, hm]
+  · intro h hca
+    simpa [identOk, hca] using h
 
 /-! ## D. what crosses the path -/
 
@@ -571,6 +685,173 @@ theorem holdsOn_tls (cfg : PathCfg) (o : WireObs) (ht : cfg.tls = true) (hi : cf
   simp [holdsOn, hc, hp] at h
   simp [h]
 
+/-! ## G. reload histories: the encryption setting a running proxy USES is the one configured NOW
+
+  Model: Frp/Model/WireReload.lean (`Manager.UpdateAll`, `NewWrapper`, a new session after a
+  reconnect).  For every start configuration and every sequence of reloads and reconnects. -/
+section Reload
+open WireReload
+
+theorem lookupLast_some {cfgs : List PxCfg} {n : Nat} {c : PxCfg} (h : lookupLast cfgs n = some c) :
+    c.name = n ∧ c ∈ cfgs := by
+  unfold lookupLast at h
+  have h1 := List.find?_some h
+  have h2 := List.mem_of_find?_eq_some h
+  exact ⟨by simpa using h1, by simpa using h2⟩
+
+theorem lookupLast_of_mem {cfgs : List PxCfg} {c : PxCfg} (h : c ∈ cfgs) :
+    ∃ c', lookupLast cfgs c.name = some c' := by
+  have : (lookupLast cfgs c.name).isSome = true := by
+    unfold lookupLast
+    rw [List.find?_isSome]
+    exact ⟨c, by simpa using h, by simp⟩
+  exact Option.isSome_iff_exists.mp this
+
+/-- `cfg = proxyCfgsMap[name]` is the entry the delete loop of the NEXT reload will compare with -/
+theorem sel_spec {all : List PxCfg} {c : PxCfg} (h : c ∈ all) :
+    lookupLast all c.name = some (sel all c) ∧ (sel all c).name = c.name := by
+  obtain ⟨c', hc'⟩ := lookupLast_of_mem h
+  have : sel all c = c' := by simp [sel, hc']
+  rw [this]
+  exact ⟨hc', (lookupLast_some hc').1⟩
+
+theorem addLoop_mem {all : List PxCfg} {cs : List PxCfg} : ∀ {ps : List Px} {p : Px},
+    p ∈ addLoop all ps cs → p ∈ ps ∨ ∃ c ∈ cs, p = mk (sel all c) := by
+  induction cs with
+  | nil => intro ps p h; exact Or.inl h
+  | cons d ds ih =>
+    intro ps p h
+    unfold addLoop at h
+    split at h
+    · rcases ih h with h1 | ⟨c, hc, he⟩
+      · exact Or.inl h1
+      · exact Or.inr ⟨c, List.mem_cons_of_mem _ hc, he⟩
+    · rcases ih h with h1 | ⟨c, hc, he⟩
+      · rcases List.mem_append.mp h1 with h2 | h2
+        · exact Or.inl h2
+        · exact Or.inr ⟨d, List.mem_cons_self, by simpa using h2⟩
+      · exact Or.inr ⟨c, List.mem_cons_of_mem _ hc, he⟩
+
+theorem addLoop_sub {all : List PxCfg} {cs : List PxCfg} : ∀ {ps : List Px} {p : Px},
+    p ∈ ps → p ∈ addLoop all ps cs := by
+  induction cs with
+  | nil => intro ps p h; exact h
+  | cons d ds ih =>
+    intro ps p h
+    unfold addLoop
+    split
+    · exact ih h
+    · exact ih (List.mem_append.mpr (Or.inl h))
+
+theorem hasName_iff {ps : List Px} {n : Nat} : hasName ps n = true ↔ ∃ p ∈ ps, p.cfg.name = n := by
+  simp [hasName]
+
+theorem addLoop_hasName {all : List PxCfg} {cs : List PxCfg} : ∀ {ps : List Px} {c : PxCfg},
+    c ∈ cs → (∀ d ∈ cs, (sel all d).name = d.name) → hasName (addLoop all ps cs) c.name = true := by
+  induction cs with
+  | nil => intro ps c h; cases h
+  | cons d ds ih =>
+    intro ps c hc hsel
+    have hsel' : ∀ e ∈ ds, (sel all e).name = e.name := fun e he => hsel e (List.mem_cons_of_mem _ he)
+    rcases List.mem_cons.mp hc with rfl | hc'
+    · unfold addLoop
+      split
+      · rename_i hn
+        obtain ⟨p, hp, hpn⟩ := hasName_iff.mp hn
+        exact hasName_iff.mpr ⟨p, addLoop_sub hp, hpn⟩
+      · refine hasName_iff.mpr ⟨mk (sel all c), addLoop_sub (List.mem_append.mpr (Or.inr (by simp))), ?_⟩
+        simpa [mk] using hsel c List.mem_cons_self
+    · unfold addLoop
+      split
+      · exact ih hc' hsel'
+      · exact ih hc' hsel'
+
+/-- what holds of an frpc at every moment -/
+def Inv (s : St) : Prop :=
+  (∀ p ∈ s.running, p.built = p.cfg ∧ lookupLast s.cfgs p.cfg.name = some p.cfg) ∧
+  (∀ c ∈ s.cfgs, hasName s.running c.name = true)
+
+/-- one `UpdateAll`: every proxy that runs afterwards — kept or newly made — was BUILT from the entry
+    of the new configuration that carries its name, and every configured name runs -/
+theorem updateAll_inv (ps : List Px) (cfgs : List PxCfg) (hb : ∀ p ∈ ps, p.built = p.cfg) :
+    Inv { cfgs := cfgs, running := updateAll ps cfgs } := by
+  constructor
+  · intro p hp
+    rcases addLoop_mem hp with h | ⟨c, hc, rfl⟩
+    · have hf := List.mem_filter.mp h
+      exact ⟨hb p hf.1, by simpa [keeps] using hf.2⟩
+    · have hs := sel_spec hc
+      refine ⟨rfl, ?_⟩
+      show lookupLast cfgs (sel cfgs c).name = some (sel cfgs c)
+      rw [hs.2]; exact hs.1
+  · intro c hc
+    exact addLoop_hasName hc (fun d hd => (sel_spec hd).2)
+
+theorem start_inv (cfgs : List PxCfg) : Inv (start cfgs) :=
+  updateAll_inv [] cfgs (fun _ h => by cases h)
+
+theorem step_inv (s : St) (e : Ev) (h : Inv s) : Inv (step s e) := by
+  cases e with
+  | reload cfgs => exact updateAll_inv s.running cfgs (fun p hp => (h.1 p hp).1)
+  | reconnect => exact updateAll_inv [] s.cfgs (fun _ h => by cases h)
+
+theorem run_inv (evs : List Ev) : ∀ (s : St), Inv s → Inv (run s evs) := by
+  induction evs with
+  | nil => intro s h; exact h
+  | cons e es ih => intro s h; exact ih (step s e) (step_inv s e h)
+
+/-- **in every history** (any start configuration, any sequence of reloads — switching encryption on
+    or off, with or without other changes — and reconnects): the configuration a running proxy was
+    built from, i.e. the one its work connections are wrapped according to and the one frps was told,
+    IS the entry of the configuration in force now. -/
+theorem running_built_from_current (cfgs0 : List PxCfg) (evs : List Ev) (p : Px)
+    (hp : p ∈ (run (start cfgs0) evs).running) :
+    lookupLast (run (start cfgs0) evs).cfgs p.cfg.name = some p.built := by
+  have h := (run_inv evs _ (start_inv cfgs0)).1 p hp
+  rw [h.1]; exact h.2
+
+/-- and every configured proxy is there -/
+theorem every_configured_proxy_runs (cfgs0 : List PxCfg) (evs : List Ev) (c : PxCfg)
+    (hc : c ∈ (run (start cfgs0) evs).cfgs) :
+    ∃ p ∈ (run (start cfgs0) evs).running, p.cfg.name = c.name :=
+  hasName_iff.mp ((run_inv evs _ (start_inv cfgs0)).2 c hc)
+
+/-- **encryption as configured NOW is what the running proxy uses** -/
+theorem enc_in_force_is_configured (cfgs0 : List PxCfg) (evs : List Ev) (p : Px) (c : PxCfg)
+    (hp : p ∈ (run (start cfgs0) evs).running)
+    (hc : lookupLast (run (start cfgs0) evs).cfgs p.cfg.name = some c) :
+    p.built.enc = c.enc ∧ p.cfg = c := by
+  have h := (run_inv evs _ (start_inv cfgs0)).1 p hp
+  have hb := running_built_from_current cfgs0 evs p hp
+  rw [hc] at hb
+  have : c = p.built := by simpa using hb
+  subst this
+  exact ⟨rfl, h.1.symm⟩
+
+/-- **when a proxy enables encryption its payload is under the cipher layer — in every history**,
+    with or without TLS on the transport -/
+theorem reload_enc_payload_never_clear (tls : Bool) (cfgs0 : List PxCfg) (evs : List Ev) (p : Px)
+    (c : PxCfg) (hp : p ∈ (run (start cfgs0) evs).running)
+    (hc : lookupLast (run (start cfgs0) evs).cfgs p.cfg.name = some c) (he : c.enc = true) :
+    payloadClear (pathOf tls p) = false ∧ Layer.proxyCipher ∈ layers (pathOf tls p) .workStream := by
+  have h := (enc_in_force_is_configured cfgs0 evs p c hp hc).1
+  exact useEncryption_covers_payload (pathOf tls p) (by simp [pathOf, h, he])
+
+/-- executable predicate for one observation after a step of a real frpc: `encNow` = the setting in
+    the configuration in force, `seen` = a fresh payload marker showed up in the capture -/
+def reloadObsOk (tls encNow seen : Bool) : Bool := !(seen && (tls || encNow))
+
+/-- the model's prediction satisfies the predicate in every history -/
+theorem reloadObsOk_model (tls : Bool) (cfgs0 : List PxCfg) (evs : List Ev) (p : Px) (c : PxCfg)
+    (hp : p ∈ (run (start cfgs0) evs).running)
+    (hc : lookupLast (run (start cfgs0) evs).cfgs p.cfg.name = some c) :
+    reloadObsOk tls c.enc (payloadClear (pathOf tls p)) = true := by
+  have h := (enc_in_force_is_configured cfgs0 evs p c hp hc).1
+  cases tls <;> cases he : c.enc <;>
+    simp [reloadObsOk, payloadClear, onNetworkPath, layers, pathOf, h, he]
+
+end Reload
+
 /-! ## F. facts regenerated from the source on every run (translate/gen_authfacts.go → Frp/Gen/AuthFacts.lean)
 
   These are checked against what the Go files say NOW; a change of the code changes the generated
@@ -725,6 +1006,73 @@ theorem gen_client_quic_tls :
   refine ⟨by decide +kernel, fun c hp => ?_⟩
   cases ht : c.tlsEnable <;> simp [clientTls, hp, ht]
 
+/-- pkg/transport/tls.go NewClientTLSConfig: starts from an empty config; `ServerName` is the parameter,
+    unconditionally; `RootCAs` + `InsecureSkipVerify = false` exactly under `caPath != ""`,
+    `InsecureSkipVerify = true` exactly otherwise; NO other field (no verification callback, no
+    name-dependent branch) is written — `clientTlsOf` -/
+theorem gen_client_tls_config :
+    newClientTLSParams = ["certPath", "keyPath", "caPath", "serverName"] ∧
+    newClientTLS =
+      { name := "base", inits := ["&tls.Config{}"]
+      , writes := ["certPath != \"\" && keyPath != \"\": Certificates = []tls.Certificate{*cert}",
+                   "ServerName = serverName",
+                   "caPath != \"\": RootCAs = pool",
+                   "caPath != \"\": InsecureSkipVerify = false",
+                   "!(caPath != \"\"): InsecureSkipVerify = true"] } ∧
+    (∀ cert ca sn, clientTlsOf cert ca sn =
+      { insecureSkipVerify := !ca, serverName := sn, hasRootCAs := ca, hasCert := cert, nextProtos := [] }) := by
+  refine ⟨by decide +kernel, by decide +kernel, fun _ _ _ => rfl⟩
+
+/-- client/connector.go: the three NewClientTLSConfig calls get `sn`, which is the configured server
+    name, or `serverAddr` when that is empty — `effServerName`; the config of the tcp / kcp /
+    websocket / wss dial is that call's result with no field written afterwards -/
+theorem gen_connector_server_name :
+    clientTLSCalls =
+      ["Open: \"\", \"\", \"\", sn",
+       "Open: c.cfg.Transport.TLS.CertFile, c.cfg.Transport.TLS.KeyFile, c.cfg.Transport.TLS.TrustedCaFile, sn",
+       "realConnect: c.cfg.Transport.TLS.CertFile, c.cfg.Transport.TLS.KeyFile, c.cfg.Transport.TLS.TrustedCaFile, sn"] ∧
+    clientServerNames =
+      ["Open: sn <- c.cfg.Transport.TLS.ServerName | sn == \"\": c.cfg.ServerAddr",
+       "realConnect: sn <- c.cfg.Transport.TLS.ServerName | sn == \"\": c.cfg.ServerAddr"] ∧
+    clientDialTLS =
+      { name := "tlsConfig"
+      , inits := ["tlsEnable: transport.NewClientTLSConfig( c.cfg.Transport.TLS.CertFile, c.cfg.Transport.TLS.KeyFile, c.cfg.Transport.TLS.TrustedCaFile, sn)"]
+      , writes := [] } ∧
+    (∀ c : ClientCfg, effServerName c = if c.serverName = [] then c.serverAddr else c.serverName) := by
+  refine ⟨by decide +kernel, by decide +kernel, by decide +kernel, fun _ => rfl⟩
+
+/-- client/proxy: a reload drops a running proxy exactly under `!ok || !reflect.DeepEqual(pxy.Cfg, cfg)`
+    (nothing is "applied in place": the only calls made on a wrapper are Stop on a dropped one and
+    SetInWorkConnCallback / Start on a new one); `Wrapper.Cfg` is set by NewWrapper's literal and never
+    written again, the proxy object is made from that same `pw.Cfg`, `BaseProxy.baseCfg` is its base
+    configuration and never written again — `WireReload.keeps`, `WireReload.mk` -/
+theorem gen_reload_compare :
+    reloadDel = ["for: false", "for && !ok || !reflect.DeepEqual(pxy.Cfg, cfg): true"] ∧
+    reloadWrapperCalls =
+      ["for && del: pxy.Stop()",
+       "for && !ok && pm.inWorkConnCallback != nil: pxy.SetInWorkConnCallback(pm.inWorkConnCallback)",
+       "for && !ok: pxy.Start()"] ∧
+    wrapperCfgWrites = [] ∧ wrapperCfgInit = ["proxy_wrapper.go NewWrapper: cfg"] ∧
+    newProxyCalls = ["proxy_wrapper.go NewWrapper: pw.ctx, pw.Cfg, clientCfg, pw.msgTransporter, pw.vnetController"] ∧
+    baseCfgInit = ["proxy.go NewProxy: pxyConf.GetBaseConfig()"] ∧
+    (∀ c, (WireReload.mk c).built = (WireReload.mk c).cfg) ∧
+    (∀ cfgs p, WireReload.keeps cfgs p = (WireReload.lookupLast cfgs p.cfg.name == some p.cfg)) := by
+  refine ⟨by decide +kernel, by decide +kernel, by decide +kernel, by decide +kernel, by decide +kernel,
+    by decide +kernel, fun _ => rfl, fun _ _ => rfl⟩
+
+/-- every `libio.WithEncryption` wrap on the frpc↔frps work connection — three on the client side,
+    three on the server side — sits directly under the `Transport.UseEncryption` of the configuration
+    the proxy object holds -/
+theorem gen_enc_wrap_conditions :
+    encWrapConds =
+      ["client/proxy/proxy.go HandleTCPWorkConnection: baseCfg.Transport.UseEncryption",
+       "client/proxy/sudp.go InWorkConn: pxy.cfg.Transport.UseEncryption",
+       "client/proxy/udp.go InWorkConn: pxy.cfg.Transport.UseEncryption",
+       "server/proxy/http.go GetRealConn: pxy.cfg.Transport.UseEncryption",
+       "server/proxy/proxy.go handleUserTCPConnection: cfg.Transport.UseEncryption",
+       "server/proxy/udp.go Run: pxy.cfg.Transport.UseEncryption"] := by
+  decide +kernel
+
 end Generated
 
 /-! ## Non-vacuity -/
@@ -738,12 +1086,12 @@ example : ((List.range 256).filter (fun b => sniff b false == .plain)).length = 
 example : sessionUp { force := false, trustedCA := true, certGiven := true }
     { tlsEnable := true, disableCustomFirstByte := true, trustedCA := true, certGiven := true
     , serverName := [102], serverAddr := [49] }
-    { srvCertIssuer := some 1, srvCertNames := [[102]], cliRootCA := 1, cliCertIssuer := some 1
+    { srvCertIssuer := some 1, srvCertDNS := [[102]], cliRootCA := 1, cliCertIssuer := some 1
     , srvClientCA := 1 } = true := by decide
 example : sessionUp { force := false, trustedCA := true, certGiven := true }
     { tlsEnable := true, disableCustomFirstByte := true, trustedCA := true, certGiven := true
     , serverName := [103], serverAddr := [49] }
-    { srvCertIssuer := some 1, srvCertNames := [[102]], cliRootCA := 1, cliCertIssuer := some 1
+    { srvCertIssuer := some 1, srvCertDNS := [[102]], cliRootCA := 1, cliCertIssuer := some 1
     , srvClientCA := 1 } = false := by decide
 -- QUIC: a mutual-TLS session that comes up, and the same peers with a certificate of another CA /
 -- with no certificate: refused; force plays no role
@@ -765,6 +1113,53 @@ example : holdsOn { tls := false, internal := false, useEncryption := true }
     { tok := false, sk := false, pwd := false, huser := false, user := true, pay := true } = false := rfl
 example : holdsOn { tls := false, internal := false, useEncryption := false }
     { tok := false, sk := false, pwd := false, huser := false, user := true, pay := true } = true := rfl
+
+-- names: what counts as an IP literal (netip.ParseAddr's IPv4 form)
+example : isIPv4 (Str.ofString "127.0.0.1") = true := by decide +kernel
+example : isIPv4 (Str.ofString "255.0.10.199") = true := by decide +kernel
+example : isIPv4 (Str.ofString "frps.test") = false := by decide +kernel
+example : isIPv4 (Str.ofString "127.0.0.01") = false := by decide +kernel
+example : isIPv4 (Str.ofString "256.0.0.1") = false := by decide +kernel
+example : isIPv4 (Str.ofString "1.2.3") = false := by decide +kernel
+example : isIPv4 (Str.ofString "1.2.3.4.5") = false := by decide +kernel
+example : isIPv4 (Str.ofString "1..2.3") = false := by decide +kernel
+example : isIPv4 [] = false := by decide +kernel
+-- the name defaulted from an IP serverAddr: session with the right IP SAN, none with a same-CA
+-- certificate that lists DNS names only, none with another IP
+example : sessionUpOn { force := false, trustedCA := false, certGiven := true }
+    { tlsEnable := true, disableCustomFirstByte := true, trustedCA := true, certGiven := false
+    , serverName := [], serverAddr := Str.ofString "127.0.0.1" }
+    { srvCertIssuer := some 1, srvCertIPs := [Str.ofString "127.0.0.1"], cliRootCA := 1 } = true := by
+  decide +kernel
+example : sessionUpOn { force := false, trustedCA := false, certGiven := true }
+    { tlsEnable := true, disableCustomFirstByte := true, trustedCA := true, certGiven := false
+    , serverName := [], serverAddr := Str.ofString "127.0.0.1" }
+    { srvCertIssuer := some 1, srvCertDNS := [Str.ofString "other.test", Str.ofString "127.0.0.1"]
+    , cliRootCA := 1 } = false := by
+  decide +kernel
+example : sessionUpOn { force := false, trustedCA := false, certGiven := true }
+    { tlsEnable := true, disableCustomFirstByte := true, protocol := .quic, trustedCA := true
+    , certGiven := false, serverName := Str.ofString "127.0.0.1", serverAddr := Str.ofString "10.0.0.1" }
+    { srvCertIssuer := some 1, srvCertDNS := [Str.ofString "frps.test"]
+    , srvCertIPs := [Str.ofString "127.0.0.9"], cliRootCA := 1 } = false := by
+  decide +kernel
+-- reload histories: start without encryption, switch it on with nothing else changed, then change
+-- only the limit, then reconnect: the running proxy is built from the entry in force
+example :
+    let c0 : WireReload.PxCfg := { name := 0, enc := false, comp := false, limit := 1, limitServer := false, other := 0 }
+    let s := WireReload.run (WireReload.start [c0])
+      [.reload [{ c0 with enc := true }], .reload [{ c0 with enc := true, limit := 2 }], .reconnect]
+    (WireReload.find s 0).map (fun p => (p.built.enc, p.built.limit, p.cfg == p.built)) = some (true, 2, true) := by
+  decide
+-- the observation predicate is not trivially true: a proxy whose status shows encryption while the
+-- object was built without it fails it (TLS off)
+example :
+    let c0 : WireReload.PxCfg := { name := 0, enc := false, comp := false, limit := 0, limitServer := false, other := 0 }
+    reloadObsOk false true (payloadClear (WireReload.pathOf false { cfg := { c0 with enc := true }, built := c0 })) = false := by
+  decide
+example : identOk true (Str.ofString "127.0.0.1")
+    { srvCertIssuer := some 1, srvCertDNS := [Str.ofString "other.test"], cliRootCA := 1 } true = false := by
+  decide +kernel
 
 end C05
 end Frp
